@@ -261,6 +261,11 @@ def run(ctx):
         if i % 6 == (ctx.seed % 6):
           sc['xval'] = [0, 1, 2, 3, 5, 8, 13]
       scs.append(sc)
+  # a study with more than a hundred trials (anything done in batches or pages has its boundaries there): deletion, a
+  # metadata update naming the first and the last trial, a suggest
+  big = [['CreateStudy', 's']] + [['CreateTrial', 's', 'requested', round(0.001 * i, 6)] for i in range(1, 121)]
+  for final in (['DeleteStudy', 's'], ['UpdateMetadata', 's', [[None, '', 'k', 'v'], [1, '', 'k', 'v'], [120, '', 'k', 'v']]], ['SuggestTrials', 's', 'a', 2]):
+    scs.append({'path': big, 'final': final})
   runs = events = xval = 0
   kinds = {}
   samples = []
